@@ -84,6 +84,8 @@ def release_sites(ctx):
             out.append({"body": b, "bb": bb, "t": None, "roles": roles, "kind": kind, "detail": detail + " (assigned None)", "params": params})
     lifted = []
     for s_ in out:
+        if str(s_.get("detail", "")).startswith("only if the lock can be taken without waiting"):
+            continue        # conditional on lock contention whatever the callers pass
         if s_["kind"] in ("UNGUARDED", "OTHER") or s_.get("params"):
             lifted.extend(lift_release_sites(ctx, s_))
     # a `countdown == 0` release inside a helper that is also called, unconditionally, while the run is being set up
@@ -357,6 +359,11 @@ def _classify_release_guard(ctx, b, bb):
             if any(s.kind == "userfut" for s in srcs):
                 vs = [v for v in vals if v != "otherwise"]
                 kinds.append(("FAILED" if vs == ["1"] else "OTHER", "match on the user future's result, arm %s" % sorted(vals)))
+            elif any(c.kind == "call" and c[1].split("::")[-1] in ("try_write", "try_lock", "try_read", "try_acquire", "try_lock_owned", "try_write_owned")
+                     for c in walk_expr(inner)):
+                # `if let Ok(mut g) = lock.try_write() { g.take(); }`: whether the release happens depends on who else holds the
+                # lock at that instant, which is none of the protocol's exits
+                kinds.append(("CONTENDED", "only if the lock can be taken without waiting (`%s`)" % fmt_expr(inner, b)[:60]))
             continue
         taken_true = "otherwise" in vals and "0" not in vals
         taken_false = "0" in vals and "otherwise" not in vals
@@ -376,6 +383,9 @@ def _classify_release_guard(ctx, b, bb):
         elif r[0] != "NONZERO":
             kinds.append(r)
     res = None
+    for kk, d in kinds:
+        if kk == "CONTENDED":
+            return "OTHER", d, params
     for k in ("NEVER", "FAILED", "INTERRUPTED", "FINISHED", "EMPTY"):
         for kk, d in kinds:
             if kk == k and res is None:
